@@ -224,6 +224,8 @@ def _base_of(cc):
 
 def _has_unknown(n) -> bool:
     if isinstance(n, tuple):
+        if not n:
+            return False
         if n[0] == "?":
             return True
         return any(_has_unknown(x) for x in n[1:])
@@ -514,6 +516,18 @@ def _check_lb(ob: _Ob, comp: Computer, w: Write, is_sam: bool) -> None:
             ob.check("B11b", {"C04", "C08", "C07"}, bool(splits) and all(x.ev.seq < w.ev.seq for x in splits), where, fn,
                      "closure loop follows the split loop in the same repetition (reads rows rewritten in this compute)", "closure-order",
                      "a closure that runs before the split loop reads stale rows of an earlier compute")
+            # ... and in EVERY repetition: nothing leaves or skips the repetition loop between the split loop and the closure loop
+            if w.outer:
+                rep_uid = w.outer[-1][1]
+                first_split = min((x.ev.seq for x in splits), default=0)
+                jumps = [e for e in comp.ft.events if e.kind in ("break", "continue", "return", "raise") and first_split < e.seq < w.ev.seq and
+                         [f[1] for f in e.ctx if f[0] in ("for", "while")][-1:] == [rep_uid]]
+                guarded = [f for f in w.loop_ev.ctx if f[0] == "if" and not (len(f) > 4 and f[4] == "implied")] if w.loop_ev is not None else []
+                ob.check("B11b", {"C04", "C07", "C08"}, not jumps and not guarded, comp.ref.where((jumps[0] if jumps else w.loop_ev).node), fn,
+                         "the closure pass runs in every repetition, the last one included (no break / continue / guard between the split loop and the closure loop)",
+                         "closure-skipped",
+                         "the last step of every pass is what makes the lower bounds monotone along inclusion: without it (repetition count 0, or the final repetition) "
+                         "lower({0,1}) can exceed lower of a superset although the class is non-increasing")
             continue
         if body[0] != "ADD":
             ob.und("B6s", {"C01", "C02", "C04", "C07"}, where, fn, f"LB value is not MAX(ADD(..)): {show_num(v)}")
